@@ -41,6 +41,9 @@ def helper_alternatives(fn):
     return out
 
 
+_CASE_ORACLE = {}      # normalised test -> truth: the cases all_cases has split on, visible while `assumptions()` runs
+
+
 class NeedCase(Exception):
     def __init__(self, test):
         self.test = test
@@ -290,6 +293,11 @@ class Valuer:
                     return a.const_value() != 0
             except Undecidable:
                 pass
+        if norm(test) in _CASE_ORACLE:
+            # a case split already made by all_cases while the assumptions are being (re)built: take that case
+            tr_ = _CASE_ORACLE[norm(test)]
+            self._assume1(test, tr_)
+            return tr_
         raise NeedCase(test)
 
     def inv(self, a):
@@ -781,8 +789,17 @@ def all_cases(build, assumptions, max_cases=64):
     def go(extra):
         if len(results) > max_cases:
             return
+        if len(extra) > 24 or len({(norm(t_), tr_) for t_, tr_ in extra}) < len(extra):
+            # the same case demanded twice: the split makes no progress - undecided, never an endless recursion
+            results.append((["%s=%s" % (norm(t), tr) for t, tr in extra], "undecidable: case split makes no progress", None))
+            return
         try:
-            v = assumptions()
+            _CASE_ORACLE.clear()
+            _CASE_ORACLE.update({norm(t): tr for t, tr in extra})
+            try:
+                v = assumptions()
+            finally:
+                _CASE_ORACLE.clear()
             for t, tr in extra:
                 v.assume(t, tr)
             for b in v.facts.boolean:
